@@ -186,7 +186,7 @@ func init() {
 	campaigns["C03"] = func(c *Ctx) {
 		c.Rule = "same covering set and generator as C01 (one value per struct x field x shape, then type-directed random values), plus instants with nanoseconds and non-UTC zones, negative numbers and durations, sub-second durations, top-level links, item lists and IRI lists. Each value goes through GobEncode / GobDecode and the decoded value's reflect dump is compared with the original under the unset/empty normal form only."
 		c01Cover(c, c03Case)
-		cfg := &GenCfg{MaxDepth: c.N(2, 3), Density: 18, Zones: true, Nanos: true, ValueNodes: true, Links: true, EmptyTypes: true,
+		cfg := &GenCfg{MaxDepth: c.N(2, 3), Density: 18, Zones: true, GobZones: true, Nanos: true, ValueNodes: true, Links: true, EmptyTypes: true,
 			Negatives: true, MultiLang: true, SubSecondDur: true}
 		for i := 0; i < c.N(2500, 60000); i++ {
 			switch p := c.R.Intn(100); {
